@@ -433,12 +433,15 @@ impl RealLiteral {
             return Err("Non-real characters");
         }
         let r: String = r.into_iter().collect();
-        f64::from_str(r.as_str())
-            .map(|value| RealLiteral {
-                value,
-                data_type: tn,
-            })
-            .map_err(|e| "real")
+        let value = f64::from_str(r.as_str()).map_err(|e| "real")?;
+        // A literal beyond the range of the largest real type has no value
+        if !value.is_finite() {
+            return Err("real out of range");
+        }
+        Ok(RealLiteral {
+            value,
+            data_type: tn,
+        })
     }
 }
 
